@@ -17,6 +17,86 @@ import (
 // name, or to nothing).  Rule: in every state-threading function, the value given to a name-carrying field
 // (UnionMatchPattern.VarName, Var.Name) contains no parse result of a body: no application of a parser callback
 // and no call whose result carries a Block or an Expr.
+// binderNameProvenanceOK: t is the text of an identifier token (psIdentName, #1(psIdentNameNx)), a parameter, the
+// name field of an existing node, a literal ("_", ""), a constructor name (csConstructorName) or a compiler
+// temporary (uniqueTmpVarName) — or a choice between such values.  Anything else is a name the compiler made up
+// from the source name: text that refers to the variable by its spelling (a `{x}` hole of an interpolated literal, a
+// GoEval) would then refer to something else.
+func binderNameProvenanceOK(f *FC, t ir.Term, depth int) bool {
+	if depth > 6 {
+		return false
+	}
+	switch x := t.(type) {
+	case *ir.Param, *ir.Lit, *ir.Local:
+		return true
+	case *ir.Field:
+		return x.Name == "Name" || x.Name == "VarName" || x.Name == "CaseId"
+	case *ir.App:
+		if fr, ok := x.Fun.(*ir.FuncRef); ok {
+			switch strings.TrimPrefix(fr.Key, f.Path+".") {
+			case "psIdentName", "csConstructorName", "uniqueTmpVarName", "psStringVal":
+				return true
+			}
+		}
+		return false
+	case *ir.Proj:
+		switch y := x.X.(type) {
+		case *ir.App:
+			if fr, ok := y.Fun.(*ir.FuncRef); ok {
+				switch strings.TrimPrefix(fr.Key, f.Path+".") {
+				case "psIdentNameNx", "psIdentOrUSNameNx", "psIdentNameNxL", "psStringValNx":
+					return x.I == 1
+				}
+			}
+		case *ir.Tuple:
+			if x.I < len(y.Elems) {
+				return binderNameProvenanceOK(f, y.Elems[x.I], depth+1)
+			}
+		case *ir.Match:
+			ok := true
+			each := func(b *ir.Block) {
+				if b != nil && b.Ret != nil && !binderNameProvenanceOK(f, &ir.Proj{X: b.Ret, I: x.I}, depth+1) {
+					ok = false
+				}
+			}
+			for _, a := range y.Arms {
+				each(a.Body)
+			}
+			each(y.Default)
+			return ok
+		case *ir.If:
+			ok := true
+			for _, b := range []*ir.Block{y.Then, y.Else} {
+				if b != nil && b.Ret != nil && !binderNameProvenanceOK(f, &ir.Proj{X: b.Ret, I: x.I}, depth+1) {
+					ok = false
+				}
+			}
+			return ok
+		}
+		return false
+	case *ir.Match:
+		ok := true
+		for _, a := range x.Arms {
+			if a.Body != nil && a.Body.Ret != nil && !binderNameProvenanceOK(f, a.Body.Ret, depth+1) {
+				ok = false
+			}
+		}
+		if x.Default != nil && x.Default.Ret != nil && !binderNameProvenanceOK(f, x.Default.Ret, depth+1) {
+			ok = false
+		}
+		return ok
+	case *ir.If:
+		ok := true
+		for _, b := range []*ir.Block{x.Then, x.Else} {
+			if b != nil && b.Ret != nil && !binderNameProvenanceOK(f, b.Ret, depth+1) {
+				ok = false
+			}
+		}
+		return ok
+	}
+	return false
+}
+
 func checkBinderNames(c *Ctx, f *FC) {
 	r := c.R
 	info := f.M.Main().TypesInfo
@@ -98,6 +178,10 @@ func checkBinderNames(c *Ctx, f *FC) {
 					}
 					return bad == ""
 				})
+				// provenance: the name is the identifier the lexer read (or a name the compiler owns)
+				if bad == "" && !binderNameProvenanceOK(f, fv.Val, 0) {
+					bad = "a computed value (" + short(ir.String(f.Path, fv.Val), 100) + ") rather than the identifier read from the source, a parameter, the name of an existing variable, a constructor name or a compiler temporary"
+				}
 				r.Check(bad == "", "C01.m", fn.Name, sprintf("%s#%d", key, n[key]), pos, "the name comes from the tokens before the body",
 					"the binder name stored in "+key+" depends on "+bad+" — a parsed body: the name in the AST is no longer the name written in the source, so a use the deciding analysis does not see (a string-interpolation hole, a GoEval) binds differently in the emitted Go")
 			}
